@@ -24,7 +24,7 @@ let range vals l lo n =
   done; flush (); Buffer.contents b
 (* hist / hist2: the extracted L1 model (SegModel.step / wstep) over the twins of the GENERATED sizing functions.
    The driver keeps a twin of the element VALUES only to know how many elements a filter-Remove deletes. *)
-let sizing f l = if f = "sq" then (Fast.sq_seg l, Fast.sq_idx l) else (Fast.cn_seg l, Fast.cn_idx l)
+let sizing f l = if String.sub f 0 2 = "sq" then (Fast.sq_seg l, Fast.sq_idx l) else (Fast.cn_seg l, Fast.cn_idx l)
 let split_op tok =
   let c = tok.[0] in
   let rest = if String.length tok > 1 then String.sub tok 1 (String.length tok - 1) else "0" in
@@ -38,7 +38,7 @@ let rec seqfrom a n = if n <= 0 then [] else a :: seqfrom (a + 1) (n - 1)
 (* translate one harness op into model ops; twin/next evolve exactly as in harness.cpp *)
 let model_ops tok (twin : int list ref) (next : int ref) : SegModel.op list option =
   let (c, a, b) = split_op tok in
-  let n = int_of_string a and m = int_of_string b in
+  let n = (try int_of_string a with _ -> max_int) and m = (try int_of_string b with _ -> max_int) in   (* SIZE_MAX arguments: only the Z value zn is used *)
   let old = List.length !twin in
   let zn = z_of_string a in
   match c with
@@ -59,6 +59,22 @@ let model_ops tok (twin : int list ref) (next : int ref) : SegModel.op list opti
   | 'F' -> if n > 0 then begin
              let t2 = List.filter (fun v -> v mod n <> 0) !twin in
              let k = old - List.length t2 in twin := t2; Some [SegModel.RemoveBack (z_of_int k)] end else Some []
+  (* const& / count,item / other iterator kinds: the same effect on count and capacity as their siblings *)
+  | 'e' -> twin := !twin @ seqfrom !next n; next := !next + n; Some (rep n SegModel.AddBack)
+  | 'o' -> Some [SegModel.AddBackNogrow]
+  | 'S' -> twin := (if n <= old then take n !twin else !twin @ rep (n - old) !next); incr next; Some [SegModel.SetCount zn]
+  | 'j' -> if n <= old then (twin := take n !twin @ (!next :: drop n !twin); incr next; Some [SegModel.InsertN (z_of_int 1)]) else Some []
+  | 'U' -> if n <= old then (twin := take n !twin @ seqfrom !next m @ drop n !twin; next := !next + m; Some (rep m (SegModel.InsertN (z_of_int 1))))
+           else Some []
+  | 'L' -> if n <= old then (twin := take n !twin @ seqfrom !next 3 @ drop n !twin; next := !next + 3; Some [SegModel.InsertN (z_of_int 3)])
+           else Some []
+  (* a newly constructed array is move-assigned: old segments freed, then the constructor's own steps *)
+  | 'G' -> twin := rep n 0; Some [SegModel.Clear true; SegModel.SetCount zn]
+  | 'H' -> twin := rep n !next; incr next; Some [SegModel.Clear true; SegModel.SetCount zn]
+  | 'R' -> twin := seqfrom !next n; next := !next + n; Some (SegModel.Clear true :: rep n SegModel.AddBack)
+  | 'T' -> twin := seqfrom !next 3; next := !next + 3; Some (SegModel.Clear true :: rep 3 SegModel.AddBack)
+  | 'P' -> twin := []; Some [SegModel.Clear true; SegModel.Reserve zn]
+  | 'Q' -> twin := seqfrom !next n; next := !next + n; Some [SegModel.Clear true; SegModel.SetCount zn]
   | _ -> None
 let show idx (s : SegModel.state) =
   let top = match List.rev s.SegModel.segs with [] -> "-1" | x :: _ -> string_of_z x in
@@ -66,7 +82,7 @@ let show idx (s : SegModel.state) =
 (* 'n' when the array is full: harness does nothing and the twin must not change; AddBackNogrow in the model has the same guard,
    but the twin needs the decision *)
 let nogrow_fix tok idx (st : SegModel.state) twin next =
-  if tok.[0] = 'n' && Z.lt (zarith_of_z st.SegModel.count) (zarith_of_z (SegModel.capacity idx st)) then (twin := !twin @ [!next]; incr next)
+  if (tok.[0] = 'n' || tok.[0] = 'o') && Z.lt (zarith_of_z st.SegModel.count) (zarith_of_z (SegModel.capacity idx st)) then (twin := !twin @ [!next]; incr next)
 let hist f l ops =
   let (seg, idx) = sizing f (z_of_string l) in
   let st = ref SegModel.empty and twin = ref [] and next = ref 1 in
